@@ -257,6 +257,10 @@ def as_str(v):
     return v
 
 
+import functools
+
+
+@functools.lru_cache(maxsize=None)
 def strip_generics(c):
     """remove turbofish groups ::<...> (nested); keeps <impl ...> groups"""
     out = []
@@ -333,7 +337,14 @@ class Machine:
         self.impls = {}
         self.const_cache = {}
         self.trace_calls = None
-        self._index()
+        cached = Machine._index_memo.get(id(bodies))
+        if cached is not None:
+            self.closures, self.impl_list, self.impls = cached
+        else:
+            self._index()
+            Machine._index_memo[id(bodies)] = (self.closures, self.impl_list, self.impls)
+
+    _index_memo = {}
 
     # ------------------------------------------------------------------ indexing of bodies
     def _index(self):
@@ -482,21 +493,25 @@ class Machine:
                 return x
             nar = None
             if g.cube is not None and len(g.cube) == 1:
-                (name, idx), = g.cube.items()
+                (name, idxs), = g.cube.items()
                 others = set()
+                ok = True
                 for g2, _ in alts:
-                    if g2.cube is not None and name in g2.cube:
-                        others.add(g2.cube[name])
-                nar = (name, {idx}, others - {idx})
+                    if g2.cube is not None and len(g2.cube) == 1 and name in g2.cube:
+                        others |= g2.cube[name]
+                    else:
+                        ok = False
+                if ok:
+                    nar = (name, set(idxs), others - set(idxs))
             if self.branch(g.z, nar):
                 return x
         raise Infeasible()
 
     def _narrow_cube(self, g):
         if g.cube:
-            for name, idx in g.cube.items():
+            for name, idxs in g.cube.items():
                 cur = self.allowed.get(name)
-                self.allowed[name] = (cur & {idx}) if cur is not None else {idx}
+                self.allowed[name] = (cur & set(idxs)) if cur is not None else set(idxs)
 
     def cstr(self, v):
         """concrete python str of a str-like value (forks on SymVal)"""
@@ -780,7 +795,18 @@ class Machine:
         raise Unsupported('binop ' + op)
 
     # ------------------------------------------------------------------ calls
+    _resolve_memo = {}
+
     def resolve(self, callee, args=None):
+        key = (id(self.b), callee)
+        memo = Machine._resolve_memo
+        if key in memo:
+            return memo[key]
+        r = self._resolve(callee, args)
+        memo[key] = r
+        return r
+
+    def _resolve(self, callee, args=None):
         if callee in self.b and self.b[callee].kind == 'fn':
             return self.b[callee]
         c = strip_generics(callee)
